@@ -10,9 +10,4 @@ pub type VersionId = Uuid;
 //@include regions/inmemory_impl.rs
 // ---- the other half of C16: the SQLite store is NOT verified (SQL in a C library); its Rust side is hashed, so that a change there makes
 // ---- the check answer UNDECIDED instead of "holds" (it says nothing about whether the change is right)
-//@watch C16 :: src/storage/sqlite/inner.rs :: struct Txn
-//@watch C16 :: src/storage/sqlite/inner.rs :: impl<'t> Txn<'t>
-//@watch C16 :: src/storage/sqlite/inner.rs :: impl WrappedStorageTxn for Txn<'_>
-//@watch C16 :: src/storage/sqlite/inner.rs :: impl WrappedStorage for SqliteStorageInner
-//@watch C16 :: src/storage/sqlite/inner.rs :: impl SqliteStorageInner
 //@include prelude/tail.rs
